@@ -3,9 +3,9 @@
 // ASSUME: operation KIND and N are enumerated as separate solver queries (vf_param); start, count, slot contents, values, positions are solver variables
 // ASSUME: unoccupied slots of the Counted ring are zero-filled by the harness so that destroying a never-constructed slot is detected deterministically (self != this)
 // ASSUME: pop_front/pop_back/getAt/front/back are called on non-empty rings only (documented by the asserts in the header)
-// OB: ob_ring_step tier=quick unwind=7 timeout=120 params=13,2 bounds="FixedSizeRing<int,N>, N=3+p1 in {3,4}: arbitrary valid pre-state (start<N, count<=N, contents symbolic), ONE op of 13 kinds {push/emplace back/front, emplace@symbolic iterator, pop front/back, extract front/back, clear, getAt/front/back read+write, iterator arithmetic, const forward traversal}; then size/empty/full, forward+reverse traversal, getAt, representation invariant" desc="ring: one step from an arbitrary state equals the sequence model"
+// OB: ob_ring_step quick_limit=26 tier=quick unwind=7 timeout=120 params=13,2 bounds="FixedSizeRing<int,N>, N=3+p1 in {3,4}: arbitrary valid pre-state (start<N, count<=N, contents symbolic), ONE op of 13 kinds {push/emplace back/front, emplace@symbolic iterator, pop front/back, extract front/back, clear, getAt/front/back read+write, iterator arithmetic, const forward traversal}; then size/empty/full, forward+reverse traversal, getAt, representation invariant" desc="ring: one step from an arbitrary state equals the sequence model"
 // OB: ob_ring_step_counted tier=quick unwind=7 timeout=120 params=10,2 bounds="FixedSizeRing<Counted,N>, N in {3,4}: arbitrary valid pre-state, ONE op of 10 kinds; ghost live-instance map" desc="ring: one step constructs/destroys each element exactly once"
-// OB: ob_ring_counted_seq tier=quick unwind=7 timeout=120 params=9,9 bounds="FixedSizeRing<Counted,3>: emplace_back, emplace_back, emplace_front (wrapped) then every pair of ops from 9 kinds, ring destroyed at the end" desc="ring: sequences construct/destroy exactly once, nothing live after destruction"
+// OB: ob_ring_counted_seq quick_limit=30 tier=quick unwind=7 timeout=120 params=9,9 bounds="FixedSizeRing<Counted,3>: emplace_back, emplace_back, emplace_front (wrapped) then every pair of ops from 9 kinds, ring destroyed at the end" desc="ring: sequences construct/destroy exactly once, nothing live after destruction"
 // OB: ob_ring_counted_seq3 tier=thorough unwind=7 timeout=120 params=9,9,9 bounds="FixedSizeRing<Counted,3>: all 729 kind-sequences of 3 ops from the empty ring" desc="ring: sequences from empty construct/destroy exactly once"
 #include "vf.h"
 #include <cstring>
